@@ -231,7 +231,10 @@ class Lib:
             for n, cid in m.cells:
                 if n == idx.n:
                     return mk_some(rty, Ref(("H", cid), ()))
-            raise Undecided("element %d of %r is no longer tracked" % (idx.n, m))
+            # an element that was already completed (and retired) is being accessed again
+            st.emit("reopen", m.role, oid, idx.n)
+            cell = st.new_obj(Top(None, "retired-element"))
+            return mk_some(rty, Ref(("H", cell.id), ()))
         if isinstance(m, AVec) and isinstance(idx, Conc):
             if idx.v >= len(m.items):
                 return mk_none(rty)
